@@ -259,7 +259,7 @@ impl Pt3 {
     pub fn rotated_y(self, degrees: f64) -> Self {
         let s = dsin(degrees);
         let c = dcos(degrees);
-        Self::new(self.x * c - self.z * s, self.y, self.x * s + self.z * c)
+        Self::new(self.x * c + self.z * s, self.y, self.z * c - self.x * s)
     }
 
     pub fn rotate_y(&mut self, degrees: f64) {
